@@ -98,8 +98,8 @@ CLAIMS = {
             "Decides the kind of every operator result cell by cell against docs/source/rst/shape.rst (105 cells), the "
             "singleton discipline of Empty/Whole, that a curve can only be assembled from a closed chain glued at "
             "all cyclic junctions (broken chains and non-curves are rejected), that result curves are grouped by "
-            "mutual containment seeded by the largest |area| with >= 2 subshapes per ConnectedShape, and the "
-            "no-boundary singleton exits.",
+            "mutual containment seeded by the largest |area| with >= 2 subshapes per ConnectedShape, that every pair "
+            "of boundary curves is cut before pieces are selected, and the no-boundary singleton exits.",
             "NOT decided: absence of zero-length pieces / self-crossings, geometric disjointness of components, the "
             "laws S|~S is Whole etc. (they depend on the numeric path). Grouping is decided on nested/disjoint worlds.",
             "DESIGN.md section 2, C06"),
@@ -136,8 +136,9 @@ CLAIMS = {
             "Decides that split ignores exactly the end parameters, addresses later segments correctly after "
             "insertions, replaces a segment in place by the pieces at the sorted parameters with all junctions "
             "re-glued, that clean() runs to a fixpoint keeping the junction objects, that BezierCurve.clean lowers "
-            "the degree exactly while the error is within tolerance, and that two pieces of a curve split at t are "
-            "united at node t.",
+            "the degree exactly while the error is within tolerance, that two pieces of a curve split at t are "
+            "united at node t, and that the memo tables behind split / degree reduction are keyed completely, by "
+            "discrete values only, and never mutated.",
             "NOT decided: every numerical clause (point sets, areas, tolerances, least-squares degree reduction, "
             "near-duplicate parameters). pynurbs knot operations are trusted.",
             "DESIGN.md section 2, C15"),
@@ -156,7 +157,8 @@ CLAIMS = {
             "Decides the structural reasons behind the measure identities: derived operators are the right Boolean "
             "combinations, each boundary piece off the other boundary is selected by exactly one of union / "
             "intersection, the complement reverses every boundary (order and each segment), the orientation cache "
-            "stays coherent under in-place inversion, and the measures are summed over every curve.",
+            "stays coherent under in-place inversion, every pair of boundary curves of the operands is cut before "
+            "pieces are selected, and the measures are summed over every curve.",
             "NOT decided: that follow_path uses each selected piece exactly once; tolerance of the identities for "
             "float / curved input.",
             "DESIGN.md section 2, C05"),
@@ -175,8 +177,9 @@ CLAIMS = {
             "stand-in chains and points",
             "Decides the constructor funnel (closed chains only, junctions shared, strings rejected), that vertices "
             "lists every control point object once in order, that boxes are componentwise min/max over all control "
-            "points joined over all parts, the sign rule of float(curve), and that the area giving the sign sums the "
-            "same per-segment integral over straight and curved pieces.",
+            "points joined over all parts, the sign rule of float(curve), that the area giving the sign sums the "
+            "same per-segment integral over straight and curved pieces, and that nothing cached survives a change of "
+            "the control points.",
             "NOT decided: == of curves built in different ways (numeric). Convex-hull property of Bezier curves assumed.",
             "DESIGN.md section 2, C17"),
     "C18": ("symbolic matrix-product check, abstract runs of the dispatch / containment decision / winding wrap, memo "
@@ -186,7 +189,8 @@ CLAIMS = {
             "evaluation cache can go stale, the box clause, the decision structure of `point in segment`, the "
             "wrap of the subtended angle, the basis identities for degrees 0..6, and (numeric abstract run with mutable "
             "sample points) that the winding number of a curved segment about an off-origin point is the sum of the "
-            "angles its chords subtend.",
+            "angles its chords subtend, and that split at several nodes yields the restrictions of the curve to the "
+            "node intervals.",
             "NOT decided: the Bernstein / Horner algebra, derivative matrices (pynurbs), split re-parametrisation, "
             "projection accuracy -- arithmetic identities outside this family. Only a small named fraction.",
             "DESIGN.md section 2, C18"),
@@ -195,7 +199,8 @@ CLAIMS = {
             "Decides that directly constructed composites are forall/sum resp. exists/sum over their subshapes, that "
             "the stored order is canonical (24 permutations -> one order, largest area first), the collapse rules of "
             "DisjointShape (Empty removed first; 0 -> Empty, 1 -> copy, >= 2 -> instance), the De Morgan complement, "
-            "and that no value stored when the composite was built survives a change of a subshape.",
+            "that no value stored when the composite was built survives a change of a subshape, and that == compares "
+            "the constituents as multisets (three components, areas differing in the last bit).",
             "NOT decided: == with operator-built shapes; ties in the sort key.",
             "DESIGN.md section 2, C19"),
     "C20": ("abstract interpretation of patch_segment / path_jordan / path_shape / plot_shape with stand-in matplotlib "
